@@ -408,7 +408,8 @@ def c_torch_copy(ctx, args):
 def c_ctor_fresh(ctx, args):
     """constructors return FRESH objects: build, mutate the result in place, build again with the same arguments -- the second result must be what the first one was
     (a memoised table handed out without copying would be corrupted by the in-place update of its first user)"""
-    be, what, n, seed = args
+    be, what, n, seed = args[:4]
+    use = args[4] if len(args) > 4 else 'flip'       # 'flip': overwrite the arrays; 'library': only library calls (rotate_by, a circuit of the same width compiled and run)
     rng = __import__('random').Random(seed)
     if be == 'np':
         M, lib, ST_, CI_ = NP, pc, pc.stabilizer, pc.circuit
@@ -454,7 +455,13 @@ def c_ctor_fresh(ctx, args):
         r1 = f()
         v1 = val(r1)
         # in-place update of the first result (what any user of the object may do)
-        if hasattr(r1, 'gs'):
+        if use == 'library' and hasattr(r1, 'gs') and int(r1.gs.shape[-1]) == 2 * n:
+            r1.rotate_by(M.P(gen.rpauli(rng, n, herm=True, nonzero=True)))
+            # (a gate on the last qubit first: the torch circuit takes its width from the largest label)
+            circ = M.build_circuit(n, [[0, [[n - 1], [2, 0]]]] + [[0, gen.rgate(rng, ctx.model, n, kinds=('gen', 'fwd', 'named'))] for _ in range(rng.randint(1, 4))])
+            circ.compile()
+            circ.forward(r1)
+        elif hasattr(r1, 'gs'):
             r1.gs[...] = 1 - r1.gs
             r1.ps[...] = (r1.ps + 1) % 4
         else:
@@ -532,6 +539,6 @@ def run(ctx):
     for be in ('np', 'torch'):
         for what in ['rotation_map', 'identity_map', 'zero_state', 'mixed_state', 'ghz_state', 'stabilizer_state', 'named_gate', 'rotation_gate', 'pauli']:
             for _ in range(max(3, int(3 * B))):
-                do(ctx, 'ctor_fresh', [be, what, rng.randint(1, 3), rng.randrange(10 ** 6)], nontrivial=('cf', be, what, ctx.res.evaluations))
+                do(ctx, 'ctor_fresh', [be, what, rng.randint(1, 3), rng.randrange(10 ** 6), rng.choice(['flip', 'library'])], nontrivial=('cf', be, what, ctx.res.evaluations))
     for _ in range(max(4, int(4 * B))):
         do(ctx, 'empties', [rng.randint(1, 3), rng.randrange(10 ** 6)], nontrivial=('em', ctx.res.evaluations))
